@@ -137,6 +137,8 @@ type Chan struct {
 	// sched mode
 	Sink     bool // accepts every send immediately and invisibly (heartbeat)
 	DoneOnly bool // a context's Done channel: only close conflicts with other operations
+	readyAt   int64 // timer channel (time.After): delivers once virtual time reaches readyAt
+	fired     bool
 	Unordered bool // many-senders-one-logger channel (the monitor): sends of different goroutines commute
 	sends    int
 	recvVCs  []vclock
